@@ -95,7 +95,13 @@ def correspondence(ctx):
     common.impl()
     st = L.merge_jobs(_run(ctx, True), r, None)
     st.into(r)
-    r.rule = '`parse` (tolerance 0, with the document\'s skip_envs) compared textually on ' + RULE_DOCS % ctx.pick(6, 12)
+    # documents of the PROVED grammar (TexSoupModel/Grammar.lean), drawn by the model: the implementation must
+    # return treeD d, positions included, in both tolerance modes (theorem C02.document_parses on the code side)
+    import lib_gram
+    lib_gram.run(ctx, r, ctx.pick(120000, 1500000), ctx.pick(3, 4))
+    r.rule = ('`parse` (tolerance 0, with the document\'s skip_envs) compared textually on ' + RULE_DOCS % ctx.pick(6, 12) +
+              '; plus well-formed, self-tokenizing documents drawn from the Lean grammar by rejection sampling, '
+              'implementation tree == treeD d for tolerance 0 and 1')
     return r
 
 
